@@ -14,7 +14,7 @@ Line numbers of the surviving nodes are kept, so reports still point at the real
 resolver, rules, construct keys) sees only the canonical tree; `Unit.source` stays the text on disk.
 '''
 import ast
-import copy
+from .astcopy import fast_copy
 import os
 
 
@@ -157,7 +157,19 @@ def _use_ok(t, a, b):
         return None
     whole = isinstance(val, ast.Name) and val.id == t      # the head IS the temporary: no reordering whatever E does
     if not whole and not _pure_enough(a.value):
-        return None
+        # an await may still move to its use when everything the statement evaluates before it is a local or a constant:
+        # locals cannot change across the suspension
+        if any(isinstance(x, (ast.Yield, ast.YieldFrom, ast.NamedExpr)) for x in ast.walk(a.value)):
+            return None
+        before = []
+        for x, c in _exec_order(val):
+            if isinstance(x, ast.Name) and x.id == t:
+                if c:
+                    return None
+                break
+            before.append(x)
+        if any(not isinstance(x, (ast.Name, ast.Constant, ast.expr_context, ast.operator, ast.cmpop, ast.unaryop, ast.boolop)) for x in before):
+            return None
     for x in ast.walk(val):
         if isinstance(x, (ast.ListComp, ast.SetComp, ast.DictComp, ast.GeneratorExp, ast.Lambda)):
             first_iter = x.generators[0].iter if hasattr(x, 'generators') else None
@@ -276,7 +288,7 @@ def _inline_aliases(fn, rebound=None):
             class R(ast.NodeTransformer):
                 def visit_Name(self, n):
                     if n.id == t and isinstance(n.ctx, ast.Load):
-                        return ast.copy_location(copy.deepcopy(expr), n)
+                        return ast.copy_location(fast_copy(expr), n)
                     return n
 
                 def _scope(self, n):
@@ -317,8 +329,43 @@ def _unannotate(tree):
     return tree
 
 
+def _split_tuple_assign(tree):
+    """N10: a, b = x, y  ->  a = x ; b = y   when no later value reads an earlier target (names, attributes)"""
+    for parent in ast.walk(tree):
+        for fld in ('body', 'orelse', 'finalbody'):
+            body = getattr(parent, fld, None)
+            if not (isinstance(body, list) and body and isinstance(body[0], ast.stmt)):
+                continue
+            new = []
+            for st in body:
+                if isinstance(st, ast.Assign) and len(st.targets) == 1 and isinstance(st.targets[0], (ast.Tuple, ast.List)) \
+                        and isinstance(st.value, (ast.Tuple, ast.List)) and len(st.targets[0].elts) == len(st.value.elts) \
+                        and all(isinstance(t, (ast.Name, ast.Attribute)) for t in st.targets[0].elts) \
+                        and not any(isinstance(v, ast.Starred) for v in st.value.elts):
+                    ts, vs = st.targets[0].elts, st.value.elts
+                    ttxt = [ast.unparse(t) for t in ts]
+                    ok = True
+                    for i in range(len(ts)):
+                        for j in range(i + 1, len(vs)):
+                            reads = {ast.unparse(x) for x in ast.walk(vs[j]) if isinstance(x, (ast.Name, ast.Attribute))}
+                            if ttxt[i] in reads:
+                                ok = False
+                    # attribute targets: the values must not be able to observe the earlier stores at all
+                    if ok and any(isinstance(t, ast.Attribute) for t in ts) and \
+                            any(isinstance(x, (ast.Call, ast.Await)) for v in vs[1:] for x in ast.walk(v)):
+                        ok = False
+                    if ok:
+                        for t, v in zip(ts, vs):
+                            new.append(ast.copy_location(ast.Assign(targets=[t], value=v), st))
+                        continue
+                new.append(st)
+            setattr(parent, fld, new)
+    return tree
+
+
 def normalize(tree, relpath=None):
     _unannotate(tree)
+    _split_tuple_assign(tree)
     if relpath is not None and not os.environ.get('VERIF_NO_REFNORM'):
         _inline_new_constants(tree, relpath)
         _inline_new_helpers(tree, relpath)
@@ -386,11 +433,24 @@ def _literal(e):
     '''value-literal expressions that may be substituted for a name'''
     if isinstance(e, ast.Constant) and isinstance(e.value, (int, bytes, str, float)) and not isinstance(e.value, bool):
         return True
+    if isinstance(e, ast.Call) and isinstance(e.func, ast.Name) and e.func.id in ('bytes', 'len', 'frozenset', 'tuple', 'int', 'min', 'max') \
+            and not e.keywords and all(_literal(a) for a in e.args):
+        return True
+    if isinstance(e, ast.Tuple) and e.elts and all(_literal(x) or _dotted(x) for x in e.elts):
+        return True
+    if isinstance(e, ast.Name) and e.id.replace('_', '').isupper():
+        return True          # another constant (by the naming convention the repository follows)
     if isinstance(e, ast.UnaryOp) and isinstance(e.op, ast.USub):
         return _literal(e.operand)
     if isinstance(e, ast.BinOp) and isinstance(e.op, (ast.Add, ast.Sub, ast.Mult, ast.FloorDiv, ast.LShift, ast.Pow)):
         return _literal(e.left) and _literal(e.right)
     return False
+
+
+def _dotted(e):
+    while isinstance(e, ast.Attribute):
+        e = e.value
+    return isinstance(e, ast.Name)
 
 
 def _inline_new_constants(tree, relpath):
@@ -403,7 +463,8 @@ def _inline_new_constants(tree, relpath):
         for n in body:
             if isinstance(n, ast.ClassDef):
                 collect(n.body, n.name)
-            elif isinstance(n, ast.Assign) and len(n.targets) == 1 and isinstance(n.targets[0], ast.Name) and _literal(n.value):
+            elif isinstance(n, ast.Assign) and len(n.targets) == 1 and isinstance(n.targets[0], ast.Name) and _literal(n.value) \
+                    and not isinstance(n.value, ast.Name):
                 q_ = (prefix + '.' if prefix else '') + n.targets[0].id
                 if q_ not in known:
                     consts[(prefix, n.targets[0].id)] = n.value
@@ -432,16 +493,17 @@ def _inline_new_constants(tree, relpath):
 
         def visit_Name(self, n):
             if isinstance(n.ctx, ast.Load) and n.id in mod:
-                return ast.copy_location(copy.deepcopy(mod[n.id]), n)
+                return ast.copy_location(fast_copy(mod[n.id]), n)
             return n
 
         def visit_Attribute(self, n):
             self.generic_visit(n)
             if isinstance(n.ctx, ast.Load) and isinstance(n.value, ast.Name) and n.value.id in ('self', 'cls', self.cls) \
                     and self.cls and (self.cls, n.attr) in cls:
-                return ast.copy_location(copy.deepcopy(cls[(self.cls, n.attr)]), n)
+                return ast.copy_location(fast_copy(cls[(self.cls, n.attr)]), n)
             return n
-    R().visit(tree)
+    for _round in range(3):
+        R().visit(tree)
 
 
 def _fold_constants(tree):
@@ -524,6 +586,84 @@ class _Ren(ast.NodeTransformer):
         return n
 
 
+def _exec_order(expr):
+    """[(node, conditional)] in execution order (post-order: operands before the operation).  `conditional` marks nodes that
+    are evaluated conditionally, repeatedly or lazily (IfExp arms, later BoolOp operands, comprehension bodies, lambdas)."""
+    out = []
+
+    def walk(n, cond):
+        if isinstance(n, ast.IfExp):
+            walk(n.test, cond)
+            walk(n.body, True)
+            walk(n.orelse, True)
+        elif isinstance(n, ast.BoolOp):
+            for k, v in enumerate(n.values):
+                walk(v, cond or k > 0)
+        elif isinstance(n, (ast.ListComp, ast.SetComp, ast.DictComp, ast.GeneratorExp)):
+            walk(n.generators[0].iter, cond)
+            for k, g in enumerate(n.generators):
+                if k:
+                    walk(g.iter, True)
+                walk(g.target, True)
+                for c in g.ifs:
+                    walk(c, True)
+            for fld in ('elt', 'key', 'value'):
+                if hasattr(n, fld):
+                    walk(getattr(n, fld), True)
+        elif isinstance(n, ast.Lambda):
+            walk(n.body, True)
+        else:
+            for c in ast.iter_child_nodes(n):
+                walk(c, cond)
+        out.append((n, cond))
+    walk(expr, False)
+    return out
+
+
+def _simple_arg(e):
+    """an argument expression that may be substituted for a parameter any number of times: a name, a constant, or an
+    attribute chain rooted at a name"""
+    while isinstance(e, ast.Attribute):
+        e = e.value
+    return isinstance(e, (ast.Name, ast.Constant))
+
+
+class _SubstMany(ast.NodeTransformer):
+    """rename locals (name -> name) and substitute parameters (name -> expression) in an inlined helper body"""
+    def __init__(self, ren, sub):
+        self.ren, self.sub = ren, sub
+
+    def visit_Name(self, n):
+        if n.id in self.sub and isinstance(n.ctx, ast.Load):
+            return ast.copy_location(fast_copy(self.sub[n.id]), n)
+        if n.id in self.ren:
+            return ast.copy_location(ast.Name(id=self.ren[n.id], ctx=n.ctx), n)
+        return n
+
+    def visit_ExceptHandler(self, n):
+        if n.name in self.ren:
+            n.name = self.ren[n.name]
+        self.generic_visit(n)
+        return n
+
+
+class _ReplaceNode(ast.NodeTransformer):
+    def __init__(self, old, new):
+        self.old, self.new, self.done = old, new, 0
+
+    def visit(self, n):
+        if n is self.old:
+            self.done += 1
+            return self.new
+        return super().visit(n)
+
+
+def _stmt_heads(st):
+    if isinstance(st, (ast.For, ast.AsyncFor)):
+        return [(st, 'iter')]
+    return _head_fields(st)
+
+
 def _inline_new_helpers(tree, relpath):
     ref = _reference()
     if not ref:
@@ -540,31 +680,23 @@ def _inline_new_helpers(tree, relpath):
                 decos = [ast.unparse(d_) for d_ in n.decorator_list]
                 if q_ not in known and all(d_ in ('staticmethod', 'classmethod') for d_ in decos) and not n.args.vararg and not n.args.kwarg \
                         and not any(isinstance(x, (ast.FunctionDef, ast.AsyncFunctionDef, ast.Lambda, ast.Global, ast.Nonlocal)) for x in _own_walk(n)):
-                    h_ = _guards_to_ifexp(copy.deepcopy(n))
+                    h_ = fast_copy(n)
+                    if h_.body and isinstance(h_.body[0], ast.Expr) and isinstance(h_.body[0].value, ast.Constant) \
+                            and isinstance(h_.body[0].value.value, str) and len(h_.body) > 1:
+                        h_.body = h_.body[1:]
+                    h_ = _guards_to_ifexp(h_)
                     if _single_exit(h_):
                         h_._verif_static = 'staticmethod' in decos
                         h_._verif_classm = 'classmethod' in decos
+                        h_._verif_orig = n
+                        h_._verif_owner = body
                         helpers[(cls, n.name)] = h_
     collect(tree.body, '')
     if not helpers:
         return
     counter = [0]
 
-    def site(st, cls):
-        """(call node, awaited, mode) if the statement is a statement-level call of a helper"""
-        val = None
-        if isinstance(st, ast.Expr):
-            val, mode = st.value, 'expr'
-        elif isinstance(st, ast.Assign) and len(st.targets) == 1:
-            val, mode = st.value, 'assign'
-        elif isinstance(st, ast.Return) and st.value is not None:
-            val, mode = st.value, 'return'
-        if val is None:
-            return None
-        awaited = isinstance(val, ast.Await)
-        call = val.value if awaited else val
-        if not isinstance(call, ast.Call):
-            return None
+    def helper_of(call, cls):
         f = call.func
         key = None
         if isinstance(f, ast.Attribute) and isinstance(f.value, ast.Name) and f.value.id in ('self', 'cls', cls) and cls:
@@ -572,36 +704,29 @@ def _inline_new_helpers(tree, relpath):
         elif isinstance(f, ast.Name):
             key = ('', f.id)
         h = helpers.get(key)
-        if h is None or isinstance(h, ast.AsyncFunctionDef) != awaited:
+        if h is None:
             return None
         if any(isinstance(a, ast.Starred) for a in call.args) or any(k.arg is None for k in call.keywords):
             return None
-        return call, h, mode, key
-
-    def expand(st, cls, depth):
-        got = site(st, cls)
-        if got is None or depth > 2:
+        if key[0] and f.value.id != 'self' and not (h._verif_static or h._verif_classm):
             return None
-        call, h, mode, key = got
-        counter[0] += 1
-        sfx = f'__{h.name}{counter[0]}'
+        return h, key
+
+    def bind(call, h, key):
+        """[(parameter name, argument expression)], or None"""
         params = [a.arg for a in h.args.posonlyargs + h.args.args]
-        is_method = bool(key[0]) and params and params[0] in ('self', 'cls') and not getattr(h, '_verif_static', False)
+        is_method = bool(key[0]) and params and params[0] in ('self', 'cls') and not h._verif_static
         if is_method:
             params = params[1:]
         kwonly = [a.arg for a in h.args.kwonlyargs]
-        locals_ = set(params) | set(kwonly)
-        for x in _own_walk(h):
-            if isinstance(x, ast.Name) and isinstance(x.ctx, (ast.Store, ast.Del)):
-                locals_.add(x.id)
-            elif isinstance(x, ast.ExceptHandler) and x.name:
-                locals_.add(x.name)
-        locals_.discard('self')
-        mapping = {n_: n_ + sfx for n_ in locals_}
-        pre = []
         defaults = h.args.defaults
         npos = len(params)
+        if len(call.args) > npos:
+            return None
         kw = {k.arg: k.value for k in call.keywords}
+        if set(kw) - set(params) - set(kwonly):
+            return None
+        out = []
         for i, p in enumerate(params):
             if i < len(call.args):
                 v = call.args[i]
@@ -611,44 +736,186 @@ def _inline_new_helpers(tree, relpath):
                 di = i - (npos - len(defaults))
                 if not (0 <= di < len(defaults)):
                     return None
-                v = copy.deepcopy(defaults[di])
-            pre.append(ast.copy_location(ast.Assign(targets=[ast.Name(id=mapping[p], ctx=ast.Store())], value=v), st))
+                v = fast_copy(defaults[di])
+            out.append((p, v))
         for p, d in zip(kwonly, h.args.kw_defaults):
-            v = kw.get(p, copy.deepcopy(d) if d is not None else None)
+            v = kw.get(p, fast_copy(d) if d is not None else None)
             if v is None:
                 return None
-            pre.append(ast.copy_location(ast.Assign(targets=[ast.Name(id=mapping[p], ctx=ast.Store())], value=v), st))
-        body = [copy.deepcopy(s_) for s_ in h.body]
-        if body and isinstance(body[0], ast.Expr) and isinstance(body[0].value, ast.Constant) and isinstance(body[0].value.value, str):
-            body = body[1:]
-        ren = _Ren(mapping)
-        body = [ren.visit(s_) for s_ in body]
-        tail = []
+            out.append((p, v))
+        return out
+
+    def stored_names(h):
+        s_ = set()
+        for x in _own_walk(h):
+            if isinstance(x, ast.Name) and isinstance(x.ctx, (ast.Store, ast.Del)):
+                s_.add(x.id)
+            elif isinstance(x, ast.ExceptHandler) and x.name:
+                s_.add(x.name)
+        return s_
+
+    def as_expression(call, h, key):
+        """the helper as one expression with the arguments substituted, or None"""
+        if not (len(h.body) == 1 and isinstance(h.body[0], ast.Return) and h.body[0].value is not None):
+            return None
+        b = bind(call, h, key)
+        if b is None:
+            return None
+        expr = h.body[0].value
+        if any(isinstance(x, (ast.ListComp, ast.SetComp, ast.DictComp, ast.GeneratorExp)) for x in ast.walk(expr)):
+            # comprehension variables are locals of the helper: keep them apart from the caller's names
+            if {x.id for x in ast.walk(expr) if isinstance(x, ast.Name) and isinstance(x.ctx, ast.Store)} & \
+                    {x.id for _p, v in b for x in ast.walk(v) if isinstance(x, ast.Name)}:
+                return None
+        order = _exec_order(expr)
+        sub = {}
+        for p, v in b:
+            uses = [(n, c) for n, c in order if isinstance(n, ast.Name) and n.id == p and isinstance(n.ctx, ast.Load)]
+            if _simple_arg(v):
+                sub[p] = v
+            elif len(uses) == 1 and not uses[0][1]:
+                sub[p] = v
+            else:
+                return None
+        return _SubstMany({}, sub).visit(fast_copy(expr))
+
+    def hoist(st, call, awaited_node, h, key, whole_mode):
+        """statements of the helper followed by st with the call replaced by the helper's result"""
+        b = bind(call, h, key)
+        if b is None:
+            return None
+        counter[0] += 1
+        sfx = f'__{h.name}{counter[0]}'
+        stored = stored_names(h)
+        locals_ = set(stored) | {p for p, _v in b}
+        locals_.discard('self')
+        ren = {n_: n_ + sfx for n_ in locals_}
+        sub = {}
+        pre = []
+        for p, v in b:
+            if _simple_arg(v) and p not in stored:
+                sub[p] = v
+                ren.pop(p, None)
+            else:
+                pre.append(ast.copy_location(ast.Assign(targets=[ast.Name(id=ren[p], ctx=ast.Store())], value=v), st))
+        tr = _SubstMany(ren, sub)
+        body = [tr.visit(fast_copy(s_)) for s_ in h.body]
+        target = awaited_node if awaited_node is not None else call
         if _single_exit(h) == 'last':
             ret = body.pop()
             rv = ret.value if ret.value is not None else ast.Constant(value=None)
-            if mode == 'assign':
-                tail = [ast.copy_location(ast.Assign(targets=st.targets, value=rv), st)]
-            elif mode == 'return':
-                tail = [ast.copy_location(ast.Return(value=rv), st)]
-            elif not isinstance(rv, (ast.Constant, ast.Name)):
+        else:
+            rv = ast.Constant(value=None)
+        tail = []
+        if whole_mode == 'expr':
+            if not isinstance(rv, (ast.Constant, ast.Name)):
                 tail = [ast.copy_location(ast.Expr(value=rv), st)]
         else:
-            if mode == 'assign':
-                tail = [ast.copy_location(ast.Assign(targets=st.targets, value=ast.Constant(value=None)), st)]
-            elif mode == 'return':
-                tail = [ast.copy_location(ast.Return(value=ast.Constant(value=None)), st)]
+            direct = any(getattr(node, f_) is target for node, f_ in _stmt_heads(st))
+            if not direct and not isinstance(rv, (ast.Constant, ast.Name)):
+                tmp = 'ret' + sfx
+                body.append(ast.copy_location(ast.Assign(targets=[ast.Name(id=tmp, ctx=ast.Store())], value=rv), st))
+                rv = ast.Name(id=tmp, ctx=ast.Load())
+            rep = _ReplaceNode(target, rv)
+            for node, f_ in _stmt_heads(st):
+                v = getattr(node, f_)
+                if v is not None:
+                    setattr(node, f_, rep.visit(v))
+            if rep.done != 1:
+                return None
+            tail = [st]
         out = pre + body + tail
-        # helpers calling helpers
-        res = []
         for s_ in out:
-            sub = expand(s_, cls, depth + 1)
-            res += sub if sub is not None else [s_]
-        for s_ in res:
             for x in ast.walk(s_):
                 if not hasattr(x, 'lineno') and isinstance(x, (ast.stmt, ast.expr)):
                     ast.copy_location(x, st)
-        return res
+        return out
+
+    def expand(st, cls, depth):
+        """a list of statements replacing st, or None when st contains no inlinable helper call"""
+        if depth > 6:
+            return None
+        heads = [(node, f_) for node, f_ in _stmt_heads(st) if getattr(node, f_) is not None]
+        if not heads:
+            return None
+        order = []
+        for node, f_ in heads:
+            order += _exec_order(getattr(node, f_))
+        parents = {}
+        for node, f_ in heads:
+            for x in ast.walk(getattr(node, f_)):
+                for c in ast.iter_child_nodes(x):
+                    parents[id(c)] = x
+        # 1. helpers that are a single expression: substituted wherever they stand
+        for n, _c in order:
+            if isinstance(n, ast.Call):
+                got = helper_of(n, cls)
+                if got is None:
+                    continue
+                h, key = got
+                par = parents.get(id(n))
+                awaited = isinstance(par, ast.Await)
+                if isinstance(h, ast.AsyncFunctionDef) != awaited:
+                    continue
+                e = as_expression(n, h, key)
+                if e is None:
+                    continue
+                rep = _ReplaceNode(par if awaited else n, e)
+                for node, f_ in heads:
+                    setattr(node, f_, rep.visit(getattr(node, f_)))
+                if rep.done == 1:
+                    for x in ast.walk(e):
+                        if isinstance(x, (ast.stmt, ast.expr)):
+                            ast.copy_location(x, n)
+                    sub = expand(st, cls, depth + 1)
+                    return sub if sub is not None else [st]
+        # 2. helpers with statements: hoisted in front of the statement when the call is the first thing the statement does
+        for k, (n, cond) in enumerate(order):
+            if not isinstance(n, ast.Call):
+                continue
+            got = helper_of(n, cls)
+            if got is None:
+                continue
+            h, key = got
+            par = parents.get(id(n))
+            awaited = isinstance(par, ast.Await)
+            if isinstance(h, ast.AsyncFunctionDef) != awaited:
+                continue
+            if cond:
+                # `if A and h(): S` without else  ==  `if A: if h(): S`
+                if isinstance(st, ast.If) and not st.orelse and isinstance(st.test, ast.BoolOp) and isinstance(st.test.op, ast.And):
+                    vals = st.test.values
+                    idx = [j for j, v in enumerate(vals) if any(x is n for x in ast.walk(v))]
+                    if idx and idx[0] > 0:
+                        j = idx[0]
+                        first = vals[0] if j == 1 else ast.BoolOp(op=ast.And(), values=vals[:j])
+                        rest = vals[j] if j == len(vals) - 1 else ast.BoolOp(op=ast.And(), values=vals[j:])
+                        inner = ast.copy_location(ast.If(test=rest, body=st.body, orelse=[]), st)
+                        st.test = ast.copy_location(first, st.test)
+                        sub = expand(inner, cls, depth + 1)
+                        st.body = sub if sub is not None else [inner]
+                        ast.fix_missing_locations(st)
+                        return [st]
+                continue
+            own = {id(x) for x in ast.walk(n)}
+            before = [x for x, _c in order[:k] if id(x) not in own]
+            if any(isinstance(x, (ast.Call, ast.Await, ast.Subscript, ast.Yield, ast.YieldFrom)) for x in before):
+                continue
+            target = par if awaited else n
+            whole = 'expr' if isinstance(st, ast.Expr) and st.value is target else None
+            res = hoist(st, n, par if awaited else None, h, key, whole)
+            if res is None:
+                continue
+            out = []
+            for s_ in res:
+                sub = expand(s_, cls, depth + 1) if s_ is not st else None
+                out += sub if sub is not None else [s_]
+            if res and res[-1] is st:
+                sub = expand(st, cls, depth + 1)
+                if sub is not None:
+                    out = out[:-1] + sub
+            return out
+        return None
 
     def rewrite(node, cls):
         for fld in ('body', 'orelse', 'finalbody'):
@@ -658,7 +925,7 @@ def _inline_new_helpers(tree, relpath):
             new = []
             for st in body:
                 sub = None
-                if not isinstance(node, ast.ClassDef) and not isinstance(node, ast.Module):
+                if not isinstance(node, (ast.ClassDef, ast.Module)):
                     sub = expand(st, cls, 0)
                 if sub is not None:
                     new += sub
@@ -670,3 +937,18 @@ def _inline_new_helpers(tree, relpath):
         for h in getattr(node, 'handlers', []) or []:
             rewrite(h, cls)
     rewrite(tree, '')
+    # a helper every call of which was inlined is no longer part of the program
+    for (cls, name), h in helpers.items():
+        orig = h._verif_orig
+        inside = {id(x) for x in ast.walk(orig)}
+        used = False
+        for x in ast.walk(tree):
+            if id(x) in inside:
+                continue
+            if (isinstance(x, ast.Attribute) and x.attr == name) or (isinstance(x, ast.Name) and x.id == name):
+                used = True
+                break
+        if not used and orig in h._verif_owner:
+            h._verif_owner.remove(orig)
+            if not h._verif_owner:
+                h._verif_owner.append(ast.copy_location(ast.Pass(), orig))
